@@ -355,6 +355,75 @@ func genC13(c *Ctx) {
 		}
 		c.Case("at", fmt.Sprintf("%s %s %d", fb(lon), fb(lat), z))
 	}
+	// latitudes OUTSIDE [-90, 90] and the special values: the quantifier is "any latitude (clamped beyond
+	// +-85.0511)" and `at_clamped_row` is stated for every latitude, so the clamp clauses
+	// (at-clamp-north / at-clamp-south) and the bit-exact Fraction comparison are exercised on the whole
+	// float line — one ulp to either side of +-85.0511 and +-90, where a clamp decided on sin(lat) folds
+	// back (90+-k*180, 180, 269, 271, 360+-...), huge values, +-Inf (NaN: correspondence only) — and on the
+	// small end (+-0, denormals).  One case in four also takes a longitude outside [-180, 180] (outside
+	// the quantifier: the longitude clause is not judged there, everything else is; kept below 10^6
+	// degrees so that `uint32(f)` stays inside the int64 range, where Go defines it).
+	c13Lats := []float64{91, 100, 135, 179, 180, 181, 269, 270, 271, 359, 360, 361, 449, 450, 451, 630, 720, 1e3, 1e6, 1e15, 1e300,
+		math.MaxFloat64, 90.000001, 85.0511, 85.05112878, 85.051129, 85.06, 86, 89, 89.999999, 90,
+		0, 5e-324, 1e-300, 1e-17, 45, 66.51326044311186, 84.9, 85.05}
+	c13Lons := []float64{180.000001, 181, 200, 270, 360, 539, 540, 541, 720, 1e3, 12345.678, 1e5, 999999,
+		math.Nextafter(180, 1000), -180.000001, -181, -200, -360, -540, -1e3, -1e5, -999999, math.Nextafter(-180, -1000)}
+	nBeyond := c.Budget/8 + 64
+	for k := 0; k < nBeyond && !c.Exhausted(); k++ {
+		z := rng.Intn(31)
+		var lat float64
+		switch rng.Intn(8) {
+		case 0, 1: // the fixed values, either sign, exactly or one ulp to either side
+			lat = ulpNudge(c13Lats[rng.Intn(len(c13Lats))])
+		case 2: // just beyond the poles
+			lat = 90 + rng.Float64()*math.Pow(10, -float64(rng.Intn(13)))
+		case 3: // where sin folds back into the unclamped band: 180k +- 85.0511
+			lat = 180*float64(1+rng.Intn(6)) + (rng.Float64()*2-1)*90
+		case 4: // around the clamp latitude itself, a few ulps to either side
+			lat = 85.0511
+			for j := rng.Intn(5); j > 0; j-- {
+				lat = ulpNudge(lat)
+			}
+		case 5: // infinities (and NaN, rarely)
+			lat = math.Inf(1)
+			if rng.Intn(6) == 0 {
+				lat = math.NaN()
+			}
+		case 6: // orders of magnitude
+			lat = 90 * math.Pow(10, rng.Float64()*300)
+		default:
+			lat = 90 + rng.Float64()*270
+		}
+		if rng.Intn(2) == 0 {
+			lat = -lat
+		}
+		lon := rng.Float64()*360 - 180
+		switch rng.Intn(8) {
+		case 0, 1:
+			lon = c13Lons[rng.Intn(len(c13Lons))]
+		case 2:
+			lon = (rng.Float64()*2 - 1) * math.Pow(10, 2+rng.Float64()*4)
+		case 3:
+			lon = []float64{180, -180, 0, math.Copysign(0, -1), math.Nextafter(180, 0)}[rng.Intn(5)]
+		}
+		c.Case("at", fmt.Sprintf("%s %s %d", fb(lon), fb(lat), z))
+	}
+	if c.Shard == 0 {
+		// every fixed latitude (both signs) at a low, a middle and the deepest zoom; every fixed longitude
+		for _, z := range []int{0, 1, 7, 30} {
+			for _, la := range c13Lats {
+				c.Case("at", fmt.Sprintf("%s %s %d", fb(10), fb(la), z))
+				c.Case("at", fmt.Sprintf("%s %s %d", fb(-170.5), fb(-la), z))
+			}
+			for _, la := range []float64{math.Inf(1), math.Inf(-1), math.NaN()} {
+				c.Case("at", fmt.Sprintf("%s %s %d", fb(10), fb(la), z))
+			}
+			for _, lo := range c13Lons {
+				c.Case("at", fmt.Sprintf("%s %s %d", fb(lo), fb(33.25), z))
+				c.Case("at", fmt.Sprintf("%s %s %d", fb(lo), fb(100), z))
+			}
+		}
+	}
 	// zooms beyond the quantifier (correspondence only): 31, and from 32 on the uint32 shifts wrap to 0 —
 	// `max != 0` in At is false, Fraction's maxtiles is 0; from 64 on ToGeo's uint64 shift wraps as well
 	for k := 0; k < c.Budget/100+8 && !c.Exhausted(); k++ {
